@@ -109,6 +109,20 @@ static void sites(report& r, std::vector<T> const& v, std::string const& id, boo
         for (sz i = 0; ok && i != n; ++i) out[i] = back.bin_left(0, i);
         compare_batch(r, "vegas_pdf", v, out, ok, id);
     }
+    for (sz dims : {sz(3), sz(4)})
+    {   // vegas_pdf with several dimensions: every boundary must come back in its own dimension
+        sz const bins = n / dims - 1;
+        if (bins < 1) break;
+        hep::vegas_pdf<T> pdf(dims, bins);
+        std::vector<T> in;
+        for (sz d = 0; d != dims; ++d) for (sz i = 0; i <= bins; ++i) { pdf.set_bin_left(d, i, v[d * (bins + 1) + i]); in.push_back(v[d * (bins + 1) + i]); }
+        std::stringstream s; pdf.serialize(s);
+        hep::vegas_pdf<T> back(s);
+        std::vector<T> out;
+        bool ok = !s.fail() && back.bins() == bins && back.dimensions() == dims;
+        for (sz d = 0; ok && d != dims; ++d) for (sz i = 0; i <= bins; ++i) out.push_back(back.bin_left(d, i));
+        compare_batch(r, dims == 3 ? "vegas_pdf(3 dimensions)" : "vegas_pdf(4 dimensions)", in, out, ok, id);
+    }
     {   // mc_result sum / sum_of_squares
         std::stringstream s;
         for (sz i = 0; i + 1 < n; i += 2) { hep::mc_result<T>(7, 6, 5, v[i], v[i + 1]).serialize(s); s << '\n'; }
@@ -378,8 +392,8 @@ static void structure(report& r)
     for (sz v = 0; v <= 2; ++v) { shape s = def; s.nres = v; shapes.push_back(s); }
     for (sz v = 0; v <= 2; ++v) { shape s = def; s.ndist = v; shapes.push_back(s); }
     for (sz v = 1; v <= 3; ++v) for (sz w = 1; w <= 2; ++w) { shape s = def; s.bx = v; s.by = w; shapes.push_back(s); }
-    for (sz v = 1; v <= 3; ++v) { shape s = def; s.chan = v; shapes.push_back(s); }
-    for (sz v = 1; v <= 2; ++v) for (sz w = 2; w <= 3; ++w) { shape s = def; s.dims = v; s.gbins = w; shapes.push_back(s); }
+    for (sz v : {sz(1), sz(2), sz(3), sz(7), sz(9), sz(10), sz(11), sz(12)}) { shape s = def; s.chan = v; shapes.push_back(s); s.nres = 0; shapes.push_back(s); }
+    for (sz v = 1; v <= 4; ++v) for (sz w = 2; w <= 3; ++w) { shape s = def; s.dims = v; s.gbins = w; shapes.push_back(s); s.nres = 0; shapes.push_back(s); s.nres = 2; shapes.push_back(s); }
     for (sz v = 0; v != names.size(); ++v) { shape s = def; s.name = v; shapes.push_back(s); s.ndist = 2; s.nres = 2; shapes.push_back(s); }
     for (sz v = 0; v != counters.size(); ++v) { shape s = def; s.counter = v; shapes.push_back(s); }
     for (sz v = 0; v != advances.size(); ++v) { shape s = def; s.adv = v; shapes.push_back(s); s.nres = 2; shapes.push_back(s); s.nres = 0; shapes.push_back(s); }
@@ -428,7 +442,12 @@ static void structure(report& r)
             // goes through a narrower type is visible
             std::vector<T> w(s.chan);
             for (sz i = 0; i != s.chan; ++i) w[i] = (i == 1 && s.chan > 2) ? T(0) : T(3 + i);
-            auto chk = hep::make_multi_channel_chkpt<T, E>(w, T(1) / T(100), T(1) / T(3), gen);
+            // three ways to arrive at first weights: user weights, user weights of which one is raised to the floor,
+            // and the uniform default (set by channels())
+            auto chk = (s.chan % 3 == 0) ? hep::make_multi_channel_chkpt<T, E>(w, T(1) / T(100), T(1) / T(3), gen)
+                : (s.chan % 3 == 1 && s.chan > 1) ? [&]() { auto ww = w; ww[0] = T(200); return hep::make_multi_channel_chkpt<T, E>(ww, T(1) / T(20), T(1) / T(3), gen); }()
+                : hep::make_multi_channel_chkpt<T, E>(T(1) / T(100), T(1) / T(3), gen);
+            chk.channels(s.chan);
             for (sz k = 0; k != s.nres; ++k)
             {
                 std::vector<T> adj(s.chan), cw(s.chan);
